@@ -143,8 +143,11 @@ impl Selector {
         result
     }
 
-    pub(super) fn resolve_ref(mut self, ctx: &CssSelectorSet) -> Vec<Self> {
-        self = self.resolve_ref_in_pseudo(ctx);
+    pub(super) fn resolve_ref(
+        mut self,
+        ctx: &CssSelectorSet,
+    ) -> Result<Vec<Self>, Invalid> {
+        self = self.resolve_ref_in_pseudo(ctx)?;
         let rel_of = self.rel_of.take();
 
         let result = if self.compound.backref.is_some() {
@@ -152,16 +155,22 @@ impl Selector {
             ctx.s
                 .s
                 .iter()
-                .map(|s| Selector {
-                    rel_of: s.rel_of.clone(),
-                    compound: s.compound.append(&self.compound).unwrap(),
+                .map(|s| {
+                    let compound = s
+                        .compound
+                        .append(&self.compound)
+                        .map_err(|_| incompatible_parent(s))?;
+                    Ok(Selector {
+                        rel_of: s.rel_of.clone(),
+                        compound,
+                    })
                 })
-                .collect()
+                .collect::<Result<_, Invalid>>()?
         } else {
             vec![self]
         };
-        if let Some(rel_of) = rel_of {
-            let rels = rel_of.1.resolve_ref(ctx);
+        Ok(if let Some(rel_of) = rel_of {
+            let rels = rel_of.1.resolve_ref(ctx)?;
             rels.into_iter()
                 .flat_map(|rel| {
                     result
@@ -187,19 +196,19 @@ impl Selector {
                 .collect()
         } else {
             result
-        }
+        })
     }
 
     pub(super) fn resolve_ref_in_pseudo(
         mut self,
         ctx: &CssSelectorSet,
-    ) -> Self {
-        self.rel_of = self.rel_of.map(|mut rel| {
-            rel.1 = rel.1.resolve_ref_in_pseudo(ctx);
-            rel
-        });
-        self.compound.resolve_ref_in_pseudo(ctx);
-        self
+    ) -> Result<Self, Invalid> {
+        if let Some(mut rel) = self.rel_of.take() {
+            rel.1 = rel.1.resolve_ref_in_pseudo(ctx)?;
+            self.rel_of = Some(rel);
+        }
+        self.compound.resolve_ref_in_pseudo(ctx)?;
+        Ok(self)
     }
 
     /// Return true iff this selector is a superselector of `sub`.
@@ -481,6 +490,13 @@ impl AppendError {
             Self::Selector(b) => b.into(),
         }
     }
+}
+
+fn incompatible_parent(parent: &Selector) -> Invalid {
+    Invalid::AtError(format!(
+        "Parent \"{}\" is incompatible with this selector.",
+        show(parent),
+    ))
 }
 
 fn show(s: &Selector) -> String {
